@@ -71,6 +71,7 @@ def _install_patch():
             before = w.view(schd)
             ids_c = set(ids)
             fn_c = set(flow_nums)
+            w.pre_db = w.db_view(schd)
         except Exception as exc:        # pragma: no cover
             raise HarnessError(f'c30 before-view: {exc!r}')
         ret = real(schd, ids, flow_nums, *a, **k)
@@ -166,6 +167,9 @@ class Picker(CommandDriver):
                 return None         # (nothing removed / already shutting down)
             self.watch.rerun_expected.append((t, CLOCK.t))
             self.watch.born = t
+            # (one follow-up per removal: a second `set` would find the task
+            # back in the pool, in whatever state it has reached)
+            self.watch.last_full_removed = None
             kw = dict(c['kwargs'])
             kw['tasks'] = [t]
             return kw
@@ -209,6 +213,7 @@ class Picker(CommandDriver):
 class RemoveWatch(Monitor):
     def __init__(self):
         self.pending_db = []
+        self.pre_db = (set(), set())
         self.last_full_removed = None
         self.rerun_expected = []
         self.removed_log = []
@@ -224,6 +229,27 @@ class RemoveWatch(Monitor):
         h.iter_hooks.append(self.post)
 
     # -- state views -------------------------------------------------------
+    def db_view(self, schd, stored=True):
+        """(tasks with queued history inserts, tasks with stored rows)."""
+        mgr = schd.workflow_db_mgr
+        queued = set()
+        for table in (mgr.TABLE_TASK_STATES, mgr.TABLE_TASK_OUTPUTS):
+            for row in mgr.db_inserts_map.get(table, []):
+                if isinstance(row, dict):
+                    queued.add(f"{row.get('cycle')}/{row.get('name')}")
+        have = set()
+        if stored:
+            path = os.path.join(self.h.run_dir, '.service', 'db')
+            con = sqlite3.connect(f'file:{path}?mode=ro', uri=True)
+            try:
+                for table in ('task_states', 'task_outputs'):
+                    for c, n in con.execute(
+                            f'SELECT DISTINCT cycle, name FROM {table}'):
+                        have.add(f'{c}/{n}')
+            finally:
+                con.close()
+        return queued, have
+
     def view(self, schd):
         from cylc.flow.task_state import TASK_STATUS_PREPARING
         out = {}
@@ -412,15 +438,17 @@ class RemoveWatch(Monitor):
         if not by_cmd:
             return      # called by group trigger: history is rewritten next
         # --- DB expectations, checked at the end of this iteration ----------
-        mgr = schd.workflow_db_mgr
-        queued = set()
-        for table in (mgr.TABLE_TASK_STATES, mgr.TABLE_TASK_OUTPUTS):
-            for row in mgr.db_inserts_map.get(table, []):
-                if isinstance(row, dict):
-                    queued.add(f"{row.get('cycle')}/{row.get('name')}")
+        # (rows still queued when the command started, or still queued now:
+        # the removal's SELECT cannot see them -- finding C30-F2)
+        queued_pre, stored_pre = self.pre_db
+        queued = set(queued_pre) | self.db_view(schd, stored=False)[0]
         for T in targets:
             if T in before and before[T].get('flows') == set():
                 continue
+            if (T not in before and T not in stored_pre
+                    and T not in queued_pre):
+                continue    # nothing existed to erase: a row seen later was
+                            # written by a later (natural) spawn
             self.pending_db.append((T, set(F), self.h.iterations,
                                     T in queued))
             had_hist = any(f'{k[0]}/{k[1]}' == T
